@@ -347,6 +347,8 @@ class World:
                 return json.load(f)
         except FileNotFoundError:
             return {}
+        except ValueError:
+            return {"__unreadable__": True}
 
     def read_hashes(self):
         p = self.path(".gwf/spec-hashes.json")
@@ -355,6 +357,8 @@ class World:
                 return json.load(f)
         except FileNotFoundError:
             return None
+        except ValueError:
+            return "__unreadable__"
 
     # ------------------------------------------------------------------ oracle applications
     def check_status(self, res, props_rows=("C01", "C08"), expected=None):
